@@ -49,9 +49,15 @@ func doShrink(t *testing.T, job *Job) {
 	exhausted := func() bool {
 		return runs >= maxRuns || time.Since(start).Seconds() > budget
 	}
+	stepLimit := 0
 	try := func(c *sim.Case, tape []int64) bool {
 		if exhausted() {
 			return false
+		}
+		if stepLimit > 0 && (c.Sched.MaxSteps == 0 || c.Sched.MaxSteps > stepLimit) {
+			// a candidate may not run much longer than the run being minimised (a variant that
+			// spins until a multi-million step budget is used up would eat the whole shrink budget)
+			c.Sched.MaxSteps = stepLimit
 		}
 		runs++
 		res, rec := runOne(t, c, rf.RunSeed, tape, true, false)
@@ -87,10 +93,13 @@ func doShrink(t *testing.T, job *Job) {
 		emit(map[string]any{"t": "shrink", "ok": false, "reason": "does not reproduce", "runs": runs})
 		return
 	}
+	if bestRes != nil {
+		stepLimit = int(bestRes.Steps)*3 + 20000
+	}
 	for round := 0; round < 3 && !exhausted(); round++ {
 		progress := false
 		// 1. drop whole tasks
-		for i := len(best.Tasks) - 1; i >= 0 && len(best.Tasks) > 1; i-- {
+		for i := len(best.Tasks) - 1; i >= 0 && len(best.Tasks) > 1 && !exhausted(); i-- {
 			if i >= len(best.Tasks) {
 				continue
 			}
@@ -101,7 +110,7 @@ func doShrink(t *testing.T, job *Job) {
 			}
 		}
 		// 2. drop faults
-		for i := len(best.Faults) - 1; i >= 0; i-- {
+		for i := len(best.Faults) - 1; i >= 0 && !exhausted(); i-- {
 			if i >= len(best.Faults) {
 				continue
 			}
@@ -115,8 +124,8 @@ func doShrink(t *testing.T, job *Job) {
 		// first halves of each task's tail, then single operations
 		for ti := range best.Tasks {
 			n := len(best.Tasks[ti].Ops)
-			for size := n / 2; size >= 1; size /= 2 {
-				for lo := n - size; lo >= 0; lo -= size {
+			for size := n / 2; size >= 1 && !exhausted(); size /= 2 {
+				for lo := n - size; lo >= 0 && !exhausted(); lo -= size {
 					c := best.Clone()
 					changed := false
 					for k := lo; k < lo+size && k < n; k++ {
@@ -146,7 +155,7 @@ func doShrink(t *testing.T, job *Job) {
 			}
 		}
 		for size := len(bestTape) / 2; size >= 4 && !exhausted(); size /= 2 {
-			for off := 0; off+size <= len(bestTape); off += size {
+			for off := 0; off+size <= len(bestTape) && !exhausted(); off += size {
 				tp := append([]int64(nil), bestTape...)
 				nz := false
 				for k := off; k < off+size; k++ {
